@@ -115,16 +115,23 @@ PROPS['C29'] = dict(
 )
 
 PROPS['C23'] = dict(
-    units=['k_sid'], level='proof', design_ref='6/C23',
-    technique='CBMC harness contracts on SessionID::operator==, operator!=, same_sender_comp_id, same_target_comp_id, same_side_* extracted from the clang AST (identity string model: '
-              'a CompID is an id, std::string ==/!= are assumed content equality)',
-    text='Identity conjunct only: proof for all CompID values (and for the aliased case a == a) that two session identities compare equal exactly when SenderCompID and TargetCompID are '
-         'both equal, that operator!= is exactly the negation of operator== (the obligation that failed before fix 9eedfd3), and that the four same_*_comp_id cross-checks used by the '
-         'CompID enforcement compare the intended pair. NOT decided by this check: Session::handle_logon (acceptor/initiator logon acceptance, client list, ResetSeqNumFlag, '
-         'HeartBtInt echo) -- a 160-line function over ~35 opaque library/virtual calls that is not under contract yet.',
-    note='logon acceptance conjuncts of C23 are NOT covered; std::string ==/!= assumed; BeginString is deliberately not part of identity equality in the code (stated as the spec here too)',
+    units=['k_sid', 'k_logon'], level='proof', design_ref='13/C23',
+    technique='CBMC harness contracts on SessionID::operator==, operator!=, same_*_comp_id (K-sid) and on Session::handle_logon (K-logon), all extracted from the clang AST; identity string model '
+              '(a CompID is an id, std::string ==/!= are assumed content equality); the inbound Logon, the client list, logger/persister creation, authenticate, the sequence gate and send are models',
+    text='Identity (K-sid, all CompID values incl. the aliased case): two session identities compare equal exactly when SenderCompID and TargetCompID are both equal, operator!= is exactly the '
+         'negation of operator== (failed before fix 9eedfd3), the four same_*_comp_id cross-checks compare the intended pair. '
+         'Logon handling (K-logon, proved-modular for every session state, configuration and Logon content): an ACCEPTOR answers with a Logon -- exactly one -- only and exactly when the '
+         'TargetCompID is its own SenderCompID (if CompID enforcement is on), the sender is in the configured client list with the configured address (if a list / an address is configured) and '
+         'authenticate() agrees; the reply echoes HeartBtInt and DefaultApplVerID and the connection adopts the interval; ResetSeqNumFlag=Y makes both sequence numbers 1 before the sequence gate '
+         'and the reply, otherwise they are the recovered numbers overridden by the numbers requested at start; the session identity becomes the mirror of the Logon; a refused logon sends '
+         'nothing, stops the session, ends in state terminated and reports failure; a completed one enters normal operation and starts supervision. An INITIATOR treats a response whose '
+         'BeginString / CompIDs do not mirror its identity as a mismatch: with enforcement it stops without applying the gate, otherwise (and for a matching response) it applies the gate and '
+         'enters normal operation; it never answers and never touches the numbers. A Logon while logged on is rejected and changes nothing. '
+         'NOT decided: Configuration::create_clients / the address comparison inside Poco, authenticate() overrides, the schedule check ordering (the Logon reply precedes it), start().',
+    note='handle_logon is under contract over ASSUMED models of ~35 library / virtual calls; std::string ==/!= assumed; BeginString is not part of SessionID equality in the code (stated as the spec too)',
     trusted_base=COMMON_TRUST,
-    explanation='SessionID is a struct of three string ids and the cached id string; the cached string is unconstrained, so an implementation comparing it instead of the CompIDs is refuted.',
+    explanation='SessionID is a struct of three string ids and the cached id string; the cached string is unconstrained, so an implementation comparing it instead of the CompIDs is refuted. '
+                'handle_logon is one call over symbolic state, so its postconditions hold for every reachable and unreachable configuration alike.',
 )
 
 PROPS['C24'] = dict(
@@ -641,6 +648,7 @@ replayers['k_hb'] = _replay_k_seq
 replayers['k_rtx'] = _replay_k_seq
 replayers['k_send'] = _replay_k_seq
 replayers['k_proc'] = _replay_k_seq
+replayers['k_logon'] = _replay_k_seq
 replayers['k_mper'] = _replay_k_mper
 replayers['k_enc'] = _replay_k_enc
 replayers['k_sched'] = _replay_k_sched
